@@ -145,6 +145,24 @@ def run_sim(case):
             extra["fmap"] = rng.standard_normal((dim, dim)) * 50
         if rng.random() < 0.5:
             extra["sens"] = crandn(rng, [nc, dim, dim])
+    # degenerate samples: exact zeros in the RF (zero padding), in the gradient and in the
+    # positions (iso-centre), i.e. time steps / places where the total field vanishes
+    deg = rng.random()
+    if deg < 0.4 and nt >= 2:
+        z = rng.random(nt) < 0.4
+        if sim == "abrm_ptx":
+            rf = rf * (~z)[None, :]
+        else:
+            rf = rf * (~z)
+        if g is not None and deg < 0.2:
+            gz = rng.random(nt) < 0.5
+            g = g * ((~gz)[:, None] if np.ndim(g) == 2 else (~gz))
+    if deg < 0.5:
+        x = np.array(x, copy=True)
+        x[0] = 0.0                       # first position exactly at the origin
+        if sim == "abrm_ptx" and x.shape[0] >= 5:
+            x[x.shape[0] // 2] = 0.0
+        sig += "|degenerate"
     checks = 0
     obs = {}
     try:
@@ -153,6 +171,10 @@ def run_sim(case):
         return violated(sig, "%s raised %s: %s" % (sim, type(e).__name__, str(e)[:200]), wit,
                         mech="raised:" + sim)
     npos = a.size
+    if not (np.all(np.isfinite(a)) and np.all(np.isfinite(b))):
+        return violated(sig, "%s returned non-finite Cayley-Klein parameters (NaN/inf at %d of "
+                        "%d positions)" % (sim, int(np.sum(~np.isfinite(a) | ~np.isfinite(b))),
+                                           a.size), wit, mech="nonfinite:" + sim)
     dev = float(np.max(np.abs(np.abs(a) ** 2 + np.abs(b) ** 2 - 1)))
     checks += 1
     obs["unitarity"] = dev
